@@ -8,7 +8,7 @@ package c09
 // (ImmutableArray) or not (Array). Several values may window the same store
 // (exact aliasing: slices of a mutable array, immutable(x) of a mutable x).
 //
-// What the language leaves to Go's append capacity (append, +, growing
+// What the language leaves to Go's append capacity (append and growing
 // splice on MUTABLE arrays may or may not share the old backing array) is
 // modelled as *uncertainty*, never guessed: the result gets its own store
 // with known contents, is put in the same "alias group" as the source store,
